@@ -58,7 +58,7 @@ def obligations(tier):
                    stubs=[FSS], env={"VERIF_PART": str(q)}, bounds="property " + ("type" if q < 2 else "id") + ", " + ("three routes" if q % 2 else "query argument") + "; every triple of allow filters (=, in, in []) on the same property (type or id) x values; all as query argument, or attached / argument / handed down"))
     if tier == "quick":
         obls.append(CH("fs_optimiser_k2", H, "optimiser2", t, mode="E1s", functions=FO + FM[:1], stubs=[FSS],
-                       bounds="every pair of type/id filters (=, !=, in, in []) over 3 types x 4 ids; soundness and exactness vs naive and MemorySource"))
+                       bounds="every pair of type/id filters (=, !=, in, in []) over 3 types x 4 ids; soundness and exactness vs naive and MemorySource, also through a view of the store made of symbolic links"))
     else:
         for p in range(32):
             obls.append(CH("fs_optimiser_k3_p%02d" % p, H, "optimiser3", t, mode="E1s", functions=FO + FM[:1], stubs=[FSS], env={"VERIF_PART": str(p)},
